@@ -242,7 +242,7 @@ func jsonCases(run *Run, db DBody, nat, js string) {
 	if !ok {
 		return
 	}
-	legacy := map[string]bool{"ref": true, "dep": true}
+	legacy := map[string]bool{"ref": true, "dep": true, "decl": true}
 	fj := parseFile("main.tf.json", []byte(js))
 	fn := parseFile("main.tf", []byte(nat))
 	if fj == nil || fn == nil {
@@ -500,7 +500,7 @@ func jsonVariantCases(run *Run, r *rand.Rand, db DBody) {
 	if !ok {
 		return
 	}
-	v := mutateBody(r, jvOfS(db.jvalS(map[string]bool{"ref": true, "dep": true})), sch, true)
+	v := mutateBody(r, jvOfS(db.jvalS(map[string]bool{"ref": true, "dep": true, "decl": true})), sch, true)
 	src := v.text()
 	f := parseFile("main.tf.json", []byte(src))
 	if f == nil {
